@@ -204,6 +204,16 @@ def Store.load (acl : Acl) (s : Store) (fetch : Nat → OMap) (amount : Int) (ma
     let st := if heads.isEmpty then s.status else { progress := len, max := len }
     .ok { s with log := L', idx := idx, status := st }
 
+/-- `Load(amount)` with the check of the `fix:` commit of finding F32: a cached head whose block did not
+come back from the fetcher (the context had ended, the block is unreachable) is an error, not an
+empty contribution. `Store.load` is `Load` as it was before: the fetcher swallows its errors, and a
+head that fetched nothing was silently skipped. -/
+def Store.loadChecked (acl : Acl) (s : Store) (fetch : Nat → OMap) (amount : Int) (maxHistory : Option Int := none) :
+    Except Err Store :=
+  let heads := (s.localHeads.getD []) ++ (s.remoteHeads.getD [])
+  if heads.any (fun h => !has (fetch h) h) then .error .notFound
+  else s.load acl fetch amount maxHistory
+
 /-- the pinned `Load`: no normalisation of a zero amount, no size clamp -/
 def Store.loadPinned (acl : Acl) (s : Store) (fetch : Nat → OMap) (amount : Int) : Except Err Store :=
   let heads := (s.localHeads.getD []) ++ (s.remoteHeads.getD [])
